@@ -388,7 +388,7 @@ func encryptMain(args []string) {
 						inner := func(path ...string) *ewiInner {
 							mCounter += 2
 							paths = append(paths, path)
-							in := &ewiInner{V: plainM(mCounter-1), H: plainM(mCounter)}
+							in := &ewiInner{V: plainM(mCounter - 1), H: plainM(mCounter)}
 							for fi, pl := range []struct {
 								plain string
 								m     int
